@@ -137,4 +137,4 @@ def replay(path, seed):
         if "liveness" in [f[0] for f in fails] and not fq.runner_f7_shape(inp, res):
             bad.append(("liveness", "stranded outside the known class"))
         return 1 if bad else 0
-    return 0
+    return 2   # not a kind of record this function knows how to replay (the driver then re-runs the check)
